@@ -248,6 +248,7 @@ func observePool(spec *Spec, ecos []Eco, vw view) []PoolObs {
 }
 
 func observeEco(spec *Spec, ecos []Eco, vw view, e int) (po PoolObs) {
+	simrt.ResetOpSteps()
 	ep := spec.Ecos[e]
 	eco := ecos[e]
 	n := len(ep.Versions)
